@@ -150,7 +150,8 @@ struct Loc {
 }
 
 /// style 0: one item per line; 1: indented, label joined with a following instruction/data, trailing comments,
-/// blank lines; 2: style 0 with a non-ASCII comment line before the first item of each file.
+/// blank lines; 2: style 0 with a non-ASCII comment line before the first item of each file; 3: style 0 with a
+/// non-ASCII block comment before the item on every item line.
 fn render(cfg: &Config, toks: &[&Tok], window: Option<(usize, usize)>, style: u8) -> (Vec<(String, Vec<u8>)>, Vec<Loc>) {
     let mut bufs = [cfg.prologue.clone(), String::new()];
     let mut lines = [cfg.prologue.matches('\n').count(), 0usize];
@@ -194,7 +195,15 @@ fn render(cfg: &Config, toks: &[&Tok], window: Option<(usize, usize)>, style: u8
             bufs[f].push_str(" ; c\n\n");
             lines[f] += 2;
         } else {
-            locs.push(Loc { file: f, line0: lines[f], col0: 0, byte0: bufs[f].len() });
+            let mut col0 = 0;
+            if style == 3 {
+                // a block comment with 2- and 3-byte characters on the item's own line, before the item:
+                // columns count characters, not bytes
+                let pre = ";* \u{e9}\u{2192} *; ";
+                bufs[f].push_str(pre);
+                col0 = pre.chars().count();
+            }
+            locs.push(Loc { file: f, line0: lines[f], col0, byte0: bufs[f].len() });
             bufs[f].push_str(toks[i].text());
             bufs[f].push('\n');
             lines[f] += 1;
@@ -975,7 +984,7 @@ fn judge_variant(env: &Env, v: &Variant, fmt_idx: &[usize], l: &mut Local) {
             let key = match (f.kind, field, v.style) {
                 (Kind::Mlb, "small-address", _) => "C12:mesen-mlb-small-address".to_string(),
                 // input-side: a non-ASCII character precedes the item in its file
-                (Kind::AddrSpan, "rows" | "source", 2) => "C12:addrspan-nonascii-before-item".to_string(),
+                (Kind::AddrSpan, "rows" | "source", 2 | 3) => "C12:addrspan-nonascii-before-item".to_string(),
                 _ => format!("C12:{}:{}", fam, field),
             };
             if l.viol_counts.get(&key).copied().unwrap_or(0) >= MAX_VIOLATIONS_KEPT_PER_KEY {
@@ -1016,7 +1025,8 @@ fn judge_seq(env: &Env, cfg: usize, seq: Vec<usize>, l: &mut Local) {
     judge_variant(env, &Variant { cfg, seq: seq.clone(), window: None, style: 1 }, &env.reduced, l);
     judge_variant(env, &Variant { cfg, seq: seq.clone(), window: Some((0, seq.len())), style: 1 }, &env.reduced, l);
     judge_variant(env, &Variant { cfg, seq: seq.clone(), window: None, style: 2 }, &env.reduced, l);
-    judge_variant(env, &Variant { cfg, seq, window: Some((0, 1)), style: 2 }, &env.reduced, l);
+    judge_variant(env, &Variant { cfg, seq: seq.clone(), window: Some((0, 1)), style: 2 }, &env.reduced, l);
+    judge_variant(env, &Variant { cfg, seq, window: None, style: 3 }, &env.reduced, l);
 }
 
 fn make_env() -> Env {
